@@ -116,12 +116,12 @@ def shards(tier, seed):
     out = [{'part': 'repo-tests'}]
     depth = 3 if tier == 'quick' else 4
     for i in range(n):
-        out.append({'part': 'dfs', 'depth': depth, 'rows': [0, 2, 3, 9] if depth == 3 else [0, 3, 9], 'slice': [i, n]})
+        out.append({'part': 'dfs', 'depth': depth, 'rows': [0, 2, 3, 9, 11] if depth == 3 else [0, 2, 9, 11], 'slice': [i, n]})
     if tier == 'quick':
         out += [{'part': 'random', 'n': 1500, 'len': 40, 'sub': j} for j in range(2)]
     else:
         for i in range(n):
-            out.append({'part': 'dfs', 'depth': 3, 'rows': [0, 1, 2, 3, 4, 7, 9, 10], 'slice': [i, n]})
+            out.append({'part': 'dfs', 'depth': 3, 'rows': [0, 1, 2, 3, 4, 7, 9, 10, 11], 'slice': [i, n]})
         out += [{'part': 'random', 'n': 10000, 'len': 40, 'sub': j} for j in range(8)]
     return out
 
@@ -151,7 +151,7 @@ def run_shard(spec, ctx):
         ctx.sample({'history': [first[0], ops[3], ops[-4]], 'alphabet': len(ops), 'depth': spec['depth']})
     else:
         r = random.Random(ctx.seed * 1000003 + 41 + spec['sub'])
-        ops = alphabet([0, 1, 2, 3, 4, 6, 7, 9, 10], idx=(-2, -1, 0, 1, 2, 5))
+        ops = alphabet([0, 1, 2, 3, 4, 6, 7, 9, 10, 11], idx=(-2, -1, 0, 1, 2, 5))
         for hno in range(spec['n']):
             hist = [r.choice(ops) for _ in range(r.randint(1, spec['len']))]
             ver = r.choice([None, '2.0', '3.0'])
